@@ -1,6 +1,6 @@
 SPECIFICATION Spec
 CONSTANTS N = 4
-          Vs = {0, 1, 2, 5, 8}
+          Vs = {0, 1, 3, 8}
           Tols <- TolsQ
           U = 2
           Extra = {0, 9, 30}
